@@ -29,6 +29,7 @@ RULE = (
     "child for tee, 0 otherwise). Non-trivial: >=50 items passed through; distinct = distinct (tool, parameters, "
     "lengths, flavours, progress pattern)."
     " Extensions of rounds 9-12: any tee child may be the survivor; long islice strides; the tee object closed with lagging children while references are kept."
+    " Round 13: plateaus and low-cardinality streams for best-of tools, class-based streams without aclose."
 )
 COMPONENTS = COMPONENTS_BASE
 ASSUMPTIONS = [
